@@ -117,8 +117,11 @@ fn circuit() -> SimResult {
     note_val("vb", (vb > 0) as u64 + (vb > 8192) as u64 + (vb > 30_000) as u64);
     note_val("stall", sta.len() as u64 + 2 * stb.len() as u64);
     // endpoint A <-> (a_relay | copy | b_relay) <-> endpoint B
-    let (ea, a_relay) = pipe::pair_cfg(PipeCfg::draw_min_cap(256), PipeCfg::draw_min_cap(256));
-    let (eb, b_relay) = pipe::pair_cfg(PipeCfg::draw_min_cap(256), PipeCfg::draw_min_cap(256));
+    // the relay's two legs may have buffered-writer semantics (they are muxer substreams in production): what the copy
+    // writes to a leg reaches the endpoint only when the copy flushes that leg
+    let staged = choose(3) == 0;
+    let (ea, a_relay) = pipe::pair_cfg(PipeCfg::draw_min_cap(256), PipeCfg::draw_min_cap(256).with_staged(staged));
+    let (eb, b_relay) = pipe::pair_cfg(PipeCfg::draw_min_cap(256), PipeCfg::draw_min_cap(256).with_staged(staged));
     let (ca, cb) = (a_relay.ctl(), b_relay.ctl());
     let (la, lb): (Rc<RefCell<EndLog>>, Rc<RefCell<EndLog>>) = Default::default();
     let result: Rc<RefCell<Option<Result<(), String>>>> = Default::default();
